@@ -341,7 +341,9 @@ func Run(sc *uw.Scenario) *simkit.Outcome {
 					// the physical oracle above reports accepted escapes; an
 					// accepted absolute link is reported there too
 					out.Probe("bad-link-accepted")
-				} else if !errors.As(uerr, &ise) {
+				} else if !errors.As(uerr, &ise) && c != model.ClLinkPhys {
+					// (an escape that exists only by way of another link is the open known
+					// finding of C04: go-slug does not see it, so a later entry's error says nothing)
 					out.Violate("C04", "bad-link-error-kind", c, fmt.Sprintf("archive %d: entry %d (%s -> %q, %s) rejected with a non-illegal-slug error: %v", ai, firstBad, dec[firstBad].Name, dec[firstBad].Link, c, uerr))
 				}
 			}
